@@ -108,7 +108,9 @@ func oracleC12() *Result {
 	r.stat("gtree_kinds", len(kinds))
 	r.stat("gtree_cases", r.Evaluations)
 	var tasks []Task
-	add := func(b []byte, tag string) { tasks = append(tasks, Task{Oracle: "C12p", Cfg: "5.6,7.4", Src: b, Tag: tag}) }
+	add := func(b []byte, tag string) {
+		tasks = append(tasks, Task{Oracle: "C12p", Cfg: "5.6,7.4", Src: b, Tag: tag})
+	}
 	for _, c := range regressionInputs("C12") {
 		add(c, "regression")
 	}
@@ -540,7 +542,9 @@ func oracleC16() *Result {
 	}
 	r.stat("gtree_kinds", len(kinds))
 	var tasks []Task
-	add := func(b []byte, tag string) { tasks = append(tasks, Task{Oracle: "C16p", Cfg: "5.6,7.4", Src: b, Tag: tag}) }
+	add := func(b []byte, tag string) {
+		tasks = append(tasks, Task{Oracle: "C16p", Cfg: "5.6,7.4", Src: b, Tag: tag})
+	}
 	for _, c := range regressionInputs("C16") {
 		add(c, "regression")
 	}
@@ -650,7 +654,7 @@ func evalC13(src []byte, cfg string) (o Outcome) {
 		if got != fresh[i] {
 			o.Fails = append(o.Fails, Failure{Site: "history-output:" + obsOps[i].name, Kind: "history", Config: cfg,
 				Detail: fmt.Sprintf("after history %v, %s gives an output different from the one on a fresh tree (first difference at byte %d)", hist, obsOps[i].name, firstDiff([]byte(got), []byte(fresh[i]))),
-				Extra: hist})
+				Extra:  hist})
 			return
 		}
 		if now := fullStr(po.Root, true); now != fp {
